@@ -366,6 +366,17 @@ def run_repeat(spec):
     path = os.path.join(case_dir, 'buf.py')
     roots = [('<case>', case_dir)]
     w = {'case': spec['id']}
+    if spec.get('exhaust') and 'def helper0(alpha0, beta0=0):' in text:
+        # the process has just analysed ANOTHER text on this very path (the same buffer before an
+        # edit elsewhere in it: helper0 had one more parameter): the answers for the present text
+        # may not depend on that
+        prev = text.replace('def helper0(alpha0, beta0=0):', 'def helper0(alpha0, beta0=0, gamma0=1):')
+        ps = jedi.Script(prev, path=path)
+        for li, lt in enumerate(prev.split('\n'), 1):
+            if lt.endswith('(') and not lt.startswith(('def ', ' ')):
+                norm.run_query(ps, 'get_signatures', li, len(lt), roots)
+        ps = None
+        rec.ev('c16:earlier_text_on_the_same_path_analysed_first')
     ok, script = apimon.call(rec, 'Script', jedi.Script, text, path=path, witness=w)
     res = {'id': spec['id'], 'digest': digest(text), 'events': rec.events, 'violations': [],
            'nontrivial': False}
